@@ -120,6 +120,21 @@ def run(res, tier, seed):
         mapping.update({("base.s", len(pre) + 1 + k): len(pre) + len(inc) + k for k in range(len(post))})
         cases.append(("\n".join(flat_lines) + "\n", files, mapping))
         NO_FINAL_NL.add(id(files))
+    # deep include chains: every file includes the next, the last one defines the function the base
+    # file calls; one line of code per level, so that every level has a diagnostic of its own
+    for depth in ((18, 40) if tier == "quick" else (18, 40, 120)):
+        files, mapping, flat_lines = {}, {}, []
+        pre = ["main:", "    li a0, 1", "    jal leaf", "    li a7, 10", "    ecall"]
+        for k, l in enumerate(pre):
+            mapping[("base.s", k)] = len(flat_lines); flat_lines.append(l)
+        files["base.s"] = pre + ['.include "l01.s"']
+        for lv in range(1, depth + 1):
+            name = f"l{lv:02d}.s"
+            own = [f"    li t{lv % 7}, {lv}"] if lv < depth else ["leaf:", "    addi a0, a0, 1", "    ret"]
+            for k, l in enumerate(own):
+                mapping[(name, k)] = len(flat_lines); flat_lines.append(l)
+            files[name] = own + ([f'.include "l{lv + 1:02d}.s"'] if lv < depth else [])
+        cases.append(("\n".join(flat_lines) + "\n", files, mapping))
     inputs = []
     for s, files, mapping in cases:
         order = import_order(files)
